@@ -56,6 +56,8 @@ def scenarios(flavour, n, max_edges, methods, only=None, order=None):
                                 s['filter'] = {'s': 'F'}
                             if order and tr and step == 'search':
                                 s['order'] = order          # builder calls of the transposed run in another order
+                            if order and tr and step == 'order':
+                                s['method_first'] = True
                             return s
                         scen = {'flavour': flavour, 'nodes': nodes,
                                 'steps': pre + [['dump', 'lite'], [step, spec(True, 0)], [step, spec(False, n)]],
@@ -115,6 +117,7 @@ def run(prop, tier, seed):
         items += list(scenarios(fl, 3, m_f, ('none',)))
         # the builder calls in reverse order (closure, transpose, target, priority) must configure the same search
         items += list(scenarios(fl, 3, 2, ('none', 'foreach'), only=lambda c: c[0] == 'search', order=REVERSED_BUILDER))
+        items += list(scenarios(fl, 3, 2, ('foreach', 'filter'), only=lambda c: c[0] == 'order', order=REVERSED_BUILDER))
         # priority-first runs only differ from each other once two frontier nodes both lead on: 4 edges, symbolic node values
         items += [it for it in scenarios(fl, 3, m_e + 1, ('none',), only=lambda c: c[1] == 'pfs') if len(it[1]['meta']['seq']) == m_e + 1
                   and (tier != 'quick' or len(set(map(tuple, it[1]['meta']['seq']))) == m_e + 1)]      # quick: no parallel edges in this family
